@@ -15,11 +15,11 @@ Record obs_tbi := {
 
 Record case := {
   k_tf : Z; k_descr : positive; k_year : Z; k_dsv : list (positive * Z); k_rt : Z;   (* NewTimeBucketInfo's arguments *)
-  k_writes : list (bool * Z * list positive * nat);   (* variable?, index (io.TimeToIndex), payload / recorded 24-byte index
+  k_writes : list (bool * Z * Z * list positive * nat);   (* variable?, YEAR of the record, index (io.TimeToIndex), payload / recorded 24-byte index
                                                record with trailing zeros cut, its full length *)
   k_create_code : nat;                      (* AddTimeBucket: 0 ok, 1 error, 2 panic *)
   k_hdr0 : list (Z * list positive);            (* maximal non-zero runs (offset, bytes) of the header after creation *)
-  k_hdr1 : list (Z * list positive);            (* ... after the writes *)
+  k_hdr1 : list (Z * list (Z * list positive));            (* per year file (year, runs) after the writes *)
   k_reload_code : nat;                      (* restart + getters: 0 ok, 1 error, 2 panic *)
   k_reload : obs_tbi
 }.
@@ -56,8 +56,13 @@ Fixpoint runs_eqb (a : list (Z * list byte)) (b : list (Z * list positive)) : bo
 Definition mk_dsv (l : list (positive * Z)) : list (list byte * Z) := map (fun '(n, t) => (unhexp n, t)) l.
 Definition padded (d : list positive) (n : nat) : list byte :=
   let b := unhexl d in b ++ zeros (n - length b).
-Definition mk_writes (l : list (bool * Z * list positive * nat)) : list wop :=
-  map (fun '(v, i, d, n) => if (v : bool) then WVar i (padded d n) else WFixed i (padded d n)) l.
+Definition mk_writes (l : list (bool * Z * Z * list positive * nat)) : list (Z * wop) :=
+  map (fun '(v, y, i, d, n) => (y, if (v : bool) then WVar i (padded d n) else WFixed i (padded d n))) l.
+
+(** every observed year file equals the model's, and there are equally many *)
+Definition files_eqb (st : files) (obs : list (Z * list (Z * list positive))) : bool :=
+  (length st =? length obs)%nat
+  && forallb (fun o => match flookup (fst o) st with Some h => runs_eqb (runs h) (snd o) | None => false end) obs.
 Definition mk_tbi (o : obs_tbi) : tbi :=
   mktbi (o_version o) (unhexp (o_descr o)) (o_year o) (o_tf o) (o_rectype o) (o_nelems o) (o_reclen o)
         (map unhexp (o_names o)) (o_types o).
@@ -71,26 +76,34 @@ Definition agrees (k : case) : bool :=
   | Rejected => (k_create_code k =? 1)%nat
   | Ok h =>
       (k_create_code k =? 0)%nat && runs_eqb (runs h) (k_hdr0 k)
-      && (let h1 := apply_writes (t_reclen f) h (mk_writes (k_writes k)) in
-          runs_eqb (runs h1) (k_hdr1 k)
-          && match read_header h1 with
-             | Ok g => (k_reload_code k =? 0)%nat && tbi_eqb g (mk_tbi (k_reload k))
-             | Rejected => (k_reload_code k =? 1)%nat
-             | Panic => (k_reload_code k =? 2)%nat
-             end)
+      && match yrun f [(t_year f, h)] (mk_writes (k_writes k)) with
+         | Ok st =>
+             files_eqb st (k_hdr1 k)
+             && match latest st with
+                | Some (_, hl) =>
+                    match read_header hl with
+                    | Ok g => (k_reload_code k =? 0)%nat && tbi_eqb g (mk_tbi (k_reload k))
+                    | Rejected => (k_reload_code k =? 1)%nat
+                    | Panic => (k_reload_code k =? 2)%nat
+                    end
+                | None => false
+                end
+         | _ => false
+         end
   end.
 
 (** the guarded theorem's hypothesis *)
 Definition in_domain (k : case) : bool :=
-  schema_dom (k_tf k) (unhexp (k_descr k)) (k_year k) (mk_dsv (k_dsv k)) (k_rt k) && writes_ok (mk_writes (k_writes k)).
+  schema_dom (k_tf k) (unhexp (k_descr k)) (k_year k) (mk_dsv (k_dsv k)) (k_rt k) && years_ok (mk_writes (k_writes k)).
 
-(** the property evaluated on the model: creation refused, or the schema preserved *)
+(** the property evaluated on the model: creation refused, or the latest year file reports the created
+    schema (names, types, timeframe, record type, record length, ... everything but the file's own year) *)
 Definition model_preserved (k : case) : bool :=
   let f := model_tbi k in
   match create f with
   | Rejected => true
-  | _ => match create_write_reload f (mk_writes (k_writes k)) with
-         | Ok g => tbi_eqb g f
+  | _ => match reload_history f (mk_writes (k_writes k)) with
+         | Ok g => tbi_eqb g (set_year f (t_year g))
          | _ => false
          end
   end.
